@@ -6,6 +6,7 @@ mod c02;
 mod c03;
 mod c04;
 mod c05;
+mod c08;
 mod c09;
 mod c11;
 mod c13;
@@ -81,6 +82,10 @@ fn main() {
                 "C14" => {
                     rep = Report::new("C14", "Phylip texts: every string up to a length bound over 0 1 . a space newline, mutated valid files (extra/missing row or field, size 0/1, +n, trailing blanks, CRLF, asymmetry, non-zero diagonal, blank line), and matrices of size 1..25 with dyadic / decimal / arbitrary-bit-pattern f64 and f32 entries written in both layouts and parsed by all three entry points; a case is one text or one (matrix, layout); non-trivial = contains a newline / at least two taxa");
                     c14::run(tier == "thorough", seed, &driver, &mut rep);
+                }
+                "C08" => {
+                    rep = Report::new("C08", "trees (every shape up to a node bound with all / no / mixed lengths; random trees to hundreds of leaves, polytomies, unary nodes, both root styles, internal labels spelled like leaves) in five arena layouts (leaf arena order differs from name order); stream A = dyadic lengths, every sum exact, compared for EXACT equality with three model computations (arena fold, rose recursion, recursive algorithm); stream B = decimal lengths compared within 1e-9 with an independent path walk; a case is one tree; non-trivial = unique leaf names, at least three leaves, a node with two or more children");
+                    c08::run(tier == "thorough", seed, &driver, &mut rep);
                 }
                 "C02" => {
                     rep = Report::new("C02", "strings fed to Tree::from_newick (corpus, every string up to a length bound over the token alphabet ( ) , ; : [ ] \" a 1 space, every short float lexeme, mutated valid Newick, random Unicode); a case is one string; non-trivial = contains at least one structural token");
